@@ -142,6 +142,10 @@ pub struct Case {
     pub log_dir: String,
     pub rewards: u64,
     pub start_before_upgrade: bool,
+    /// before the upgrade, another `antctl add` (a second service, no `--env`, otherwise default) runs
+    /// against the same registry: what it leaves in the registry must not change service 1's upgrade
+    #[serde(default)]
+    pub second_add_before_upgrade: bool,
     pub up: UpgradeSpec,
 }
 
@@ -386,6 +390,8 @@ pub fn case_strategy(mask: Option<u16>) -> BoxedStrategy<Case> {
                     log_dir,
                     rewards,
                     start_before_upgrade,
+                    // derived from generated bits so that older replay files stay valid
+                    second_add_before_upgrade: rewards % 3 == 0,
                     up,
                 };
                 // the three requested ports of one service are distinct (a real caller picks
@@ -875,6 +881,44 @@ async fn execute_async(c: &Case) -> Outcome {
         reg.save().unwrap_or_else(|e| fatal(format!("save: {e}")));
         labels.push("started_before_upgrade".into());
     }
+    // ---- optionally another `antctl add` in between (no --env, everything else default) ------------
+    if c.second_add_before_upgrade {
+        let second = AddNodeServiceOptions {
+            antnode_dir_path: base_data.clone(),
+            antnode_src_path: src_bin.clone(),
+            auto_restart: false,
+            auto_set_nat_flags: false,
+            count: None,
+            delete_antnode_src: false,
+            enable_metrics_server: false,
+            env_variables: None,
+            evm_network: evm.clone(),
+            home_network: false,
+            log_format: None,
+            max_archived_log_files: None,
+            max_log_files: None,
+            metrics_port: None,
+            network_id: None,
+            node_ip: None,
+            node_port: None,
+            owner: None,
+            peers_args: PeersArgs::default(),
+            rewards_address: rewards,
+            rpc_address: None,
+            rpc_port: None,
+            service_data_dir_path: base_data.clone(),
+            service_log_dir_path: base_log.clone(),
+            upnp: false,
+            user: if user_mode { None } else { username.clone() },
+            user_mode,
+            version: "0.112.3".to_string(),
+        };
+        match add_node(second, &mut reg, &os, VerbosityLevel::Minimal).await {
+            Ok(_) => labels.push("second_add_before_upgrade".into()),
+            Err(e) => labels.push(format!("inconclusive_precondition/second_add_failed:{}", vh_core::one_line(&e.to_string(), 40))),
+        }
+        reg.save().unwrap_or_else(|e| fatal(format!("save: {e}")));
+    }
     let recorded = reg.nodes[0].clone();
 
     // ---- upgrade (forced), as cmd/node.rs builds its options --------------------------------------
@@ -940,6 +984,13 @@ async fn execute_async(c: &Case) -> Outcome {
         fail!(
             "upgrade_ignores_option/env_variables".into(),
             format!("UpgradeOptions.env_variables={:?} but definition environment={:?}", up_env, upgrade_ctx.environment),
+        );
+    }
+    // an upgrade that names no environment of its own re-creates the one the service was installed with
+    if c.up.env_override.is_none() && upgrade_ctx.environment != install_ctx.environment {
+        fail!(
+            "upgrade_changes_environment".into(),
+            format!("installed with {:?}; the upgraded definition (no environment given to the upgrade) has {:?}", install_ctx.environment, upgrade_ctx.environment),
         );
     }
     // install-time: what the caller asked for
